@@ -29,6 +29,7 @@ func runC20(c *Check, tier string) {
 	ruleR09f(c, "R20i")
 	// a dependency named twice is one edge: the direct queries print each label once
 	ruleRepeatedDependencyIsOneEdge(c, "R20j")
+	ruleReachableListUnfiltered(c, "R20m")
 	ruleWrittenOnlyByLoader(c, "R20k", "model.Alias", "Actual", "the graph's edges come from Alias.GetDependencies() = [Actual], so `deps`/`rdeps` answer for the rewritten graph, not for the declared one (an alias of an alias loses its edge to the intermediate alias)")
 	ruleWrittenOnlyByLoader(c, "R20l", "model.Target", "Inputs", "`owners` answers from what the loader resolved (patterns minus exclude_inputs) while the change hash is computed from the rewritten list: editing a file that `owners` attributes to no target re-executes targets")
 }
